@@ -169,7 +169,34 @@ pub fn execute_via(emu: &mut Emu, ops: &[Op], insns: bool) -> Result<Vec<Obs>, S
             Op::Tcorb(v) => cpu_store(emu, TCORB, v, via(i)),
             Op::ClearFlags(mask, low) => {
                 let cur = emu.cpu.bus.read(TCSR).map_err(|e| e.to_string())?;
-                cpu_store(emu, TCSR, (cur & 0xe0 & !mask) | (low & 0x1f), via(i))
+                let fin = (cur & 0xe0 & !mask) | (low & 0x1f);
+                if insns {
+                    // the way guests acknowledge: one BCLR #bit,@TCSR:8 (read-modify-write) per flag, then the other
+                    // bits with a byte store if they differ
+                    use crate::refmodel::insn::{encode, BitOp, BitSel, BitTgt, Insn};
+                    let mut r = Ok(());
+                    for b in [5u8, 6, 7] {
+                        if mask & (1 << b) != 0 && r.is_ok() {
+                            let code = encode(&Insn::Bit { op: BitOp::Bclr, sel: BitSel::Imm(b), tgt: BitTgt::A8(TCSR as u8) });
+                            for (k, x) in code.iter().enumerate() {
+                                raw_set(&mut emu.cpu.bus, SCRATCH_CODE + k as u32, *x);
+                            }
+                            emu.cpu.er = [0, 0, 0, 0, 0, 0, 0, SCRATCH_SP];
+                            emu.set_pc(SCRATCH_CODE);
+                            emu.set_ccr(0x80);
+                            if let other @ (EmuResult::Err(_) | EmuResult::Panic(_)) = emu.step() {
+                                r = Err(format!("BCLR #{},@TCSR failed: {:?}", b, other));
+                            }
+                        }
+                    }
+                    let now = emu.cpu.bus.read(TCSR).map_err(|e| e.to_string())?;
+                    if r.is_ok() && now != fin {
+                        r = cpu_store(emu, TCSR, fin, via(i));
+                    }
+                    r
+                } else {
+                    cpu_store(emu, TCSR, fin, via(i))
+                }
             }
             Op::Other(k, v) => cpu_store(emu, OTHER_REGS[k as usize % OTHER_REGS.len()], v, via(i)),
             Op::Stray(a, v) => {
